@@ -288,6 +288,14 @@ class DCAwareRoundRobinPolicy(LoadBalancingPolicy):
         # control connection startup/refresh
         if not self.local_dc and host.datacenter:
             if host.endpoint in self._endpoints:
+                # hosts whose datacenter is not known yet are filed under the unset local_dc: keep them
+                # where _dc() will look for them from now on
+                with self._hosts_lock:
+                    unknown_dc_hosts = self._dc_live_hosts.pop(self.local_dc, ())
+                    if unknown_dc_hosts:
+                        current_hosts = self._dc_live_hosts.get(host.datacenter, ())
+                        self._dc_live_hosts[host.datacenter] = current_hosts + tuple(
+                            h for h in unknown_dc_hosts if h not in current_hosts)
                 self.local_dc = host.datacenter
                 log.info("Using datacenter '%s' for DCAwareRoundRobinPolicy (via host '%s'); "
                          "if incorrect, please specify a local_dc to the constructor, "
